@@ -57,6 +57,16 @@ def gen_case(rng, tier, avoid):
             if rng.random() < 0.15:
                 op['kwargs']['cast_dtype'] = gen.cast_literal(rng, gen.pick(rng, SAFE_CASTS[dt]))
     kind = gen.pick(rng, ['inline', 'inline', 'dict', 'struct', 'h5'])
+    crossed = False
+    if kind == 'inline' and rng.random() < 0.2:
+        # dataset names that cross channel names: a channel stores its array under the NAME of a channel added later
+        chans = [op for op in spec.ops if op.get('op') == 'add' and op['kind'] == 'channel']
+        if len(chans) > 1:
+            i = rng.randrange(len(chans) - 1)
+            j = rng.randrange(i + 1, len(chans))
+            if 'dataset_name' not in chans[j]['kwargs'] and chans[i]['name'] != chans[j]['name']:
+                chans[i]['kwargs']['dataset_name'] = chans[j]['name']
+                crossed = True       # (the later channel's dataset name is then made unique by the library: no write(data=) here)
     ops, data = spec.ops, None
     if kind != 'inline':
         ops, data = gen.externalize(spec.ops, kind, rng)
@@ -76,7 +86,7 @@ def gen_case(rng, tier, avoid):
         if rng.random() < 0.7:
             w1['to_idx'] = rng.randint(a + 1, minrows)
     writes = [w1]
-    if rng.random() < 0.3 and kind in ('dict', 'inline') and not own_sets:
+    if rng.random() < 0.3 and kind in ('dict', 'inline') and not own_sets and not crossed:
         # second write with other data (same widths; other dtype unless the persisted-cast finding is avoided)
         chans = [(op['name'], op['kwargs'].get('dataset_name'), (op['kwargs'].get('data') or {}).get('$arr'))
                  for op in ops if op.get('op') == 'add' and op['kind'] == 'channel']
